@@ -178,8 +178,14 @@ def build(node, env, memo=None):
         r = build(node[1], env, memo).sorted(terms, **_opts_kw(env, node[3] if len(node) > 3 else None))
     elif op == "slice":
         start, stop = node[2], node[3]
-        r = build(node[1], env, memo)[
-            (None if start is None else env.val(start)):(None if stop is None else env.val(stop))]
+        if len(node) > 4 and node[4]:
+            from lsst.daf.relation import Slice
+
+            r = Slice(0 if start is None else env.val(start), None if stop is None else env.val(stop)).apply(
+                build(node[1], env, memo), **_opts_kw(env, node[4]))
+        else:
+            r = build(node[1], env, memo)[
+                (None if start is None else env.val(start)):(None if stop is None else env.val(stop))]
     elif op == "chain":
         r = build(node[1], env, memo).chain(build(node[2], env, memo))
     elif op == "join":
@@ -438,7 +444,7 @@ def fmt(node):
         ts = ",".join(("" if asc else "-") + exprsem.ast_str(e) for e, asc in node[2])
         return f"{fmt(node[1])}.sort[{ts}]" + _fo(node, 3)
     if op == "slice":
-        return f"{fmt(node[1])}[{'' if node[2] is None else node[2]}:{'' if node[3] is None else node[3]}]"
+        return f"{fmt(node[1])}[{'' if node[2] is None else node[2]}:{'' if node[3] is None else node[3]}]" + _fo(node, 4)
     if op == "chain":
         return f"({fmt(node[1])} U {fmt(node[2])})"
     if op == "join":
